@@ -109,7 +109,7 @@ var driverMethodNames = map[string]bool{"Prepare": true, "PrepareContext": true,
 	"OpenConnector": true, "NumInput": true, "IsValid": true, "CheckNamedValue": true, "Driver": true}
 
 func checkC16(r *core.Run) {
-	r.Explain = "Decided statically: (C16.notraffic) on every call chain from a database/sql/driver entry point of the proxy types to a remoting sink (BranchRegister, BranchReport, LockQuery, SendSyncRequest) at least one call site is control-dependent on an accepted global-transaction predicate; (C16.forward) pass-through methods hand the target driver their own ctx / query / args (or the repo's value<->named conversion of them), never a fresh context, and use the executor's result only on its nil-error edge; (C16.noextra) outside a global transaction no failure source of the proxy's own (SQL parser, table-meta lookup) lies on the path of a statement; (C16.execctx) every ExecContext literal handed to an executor sets the non-boolean fields the live AT executors read. (C16.reset) when database/sql reuses a pooled connection (ResetSession delegating to the driver) the proxy's transaction context is a fresh one — or is cleared by a method that assigns every field of the context, the transaction mode included; (C16.once) a connection method that installs a one-statement transaction context (createOnceTxContext answered true) puts a fresh local context back on every exit, failing ones included — otherwise the connection keeps AT/XA mode and the old xid after the global transaction and later local work is treated as a branch; (C16.dispatch) the AT executor dispatch constructs an executor that issues statements of its own (image queries, lock queries) only on paths where tm.IsGlobalTx holds for the context of the current call — state kept in a TransactionContext is not accepted there, because a prepared statement keeps the context it was prepared with. NOT decided: result equivalence of arbitrary statement programs (differential behaviour)."
+	r.Explain = "Decided statically: (C16.notraffic) on every call chain from a database/sql/driver entry point of the proxy types to a remoting sink (BranchRegister, BranchReport, LockQuery, SendSyncRequest) at least one call site is control-dependent on an accepted global-transaction predicate; (C16.forward) pass-through methods hand the target driver their own ctx / query / args (or the repo's value<->named conversion of them), never a fresh context, and use the executor's result only on its nil-error edge; (C16.noextra) outside a global transaction no failure source of the proxy's own (SQL parser, table-meta lookup) lies on the path of a statement; (C16.execctx) every ExecContext literal handed to an executor sets the non-boolean fields the live AT executors read. (C16.reset) when database/sql reuses a pooled connection (ResetSession delegating to the driver) the proxy's transaction context is a fresh one — or is cleared by a method that assigns every field of the context, the transaction mode included; (C16.once) a connection method that installs a one-statement transaction context (createOnceTxContext answered true) puts a fresh local context back on every exit, failing ones included — otherwise the connection keeps AT/XA mode and the old xid after the global transaction and later local work is treated as a branch; (C16.dispatch) the AT executor dispatch constructs an executor that issues statements of its own (image queries, lock queries) only on paths where tm.IsGlobalTx holds for the context of the current call — state kept in a TransactionContext is not accepted there, because a prepared statement keeps the context it was prepared with. (C16.noextra, also) a connection method that asks tm.IsGlobalTx assigns no field of the connection where the answer is no; NOT decided: result equivalence of arbitrary statement programs (differential behaviour)."
 	r.Trusted = []string{"go/types, go/cfg", "CHA over repository types; database/sql/driver interfaces are the wrapped driver"}
 	w := r.W
 	pts := proxyTypes(w)
